@@ -90,11 +90,33 @@ Print Assumptions C03_skip_leaf_returns_stored.
    the REQUESTED id (C03_stack_sound contains this for every stack with a Proto hop, in front
    of any server, including one whose store derives ids from content, [Foreign]). *)
 Theorem C03_proto_response_id_ignored :
-  forall (H : bytes -> id) (zdecomp : bytes -> option bytes) (requested label : id) (body : bytes) (c : chunk),
-  proto_answer H zdecomp requested label body = Ok c ->
+  forall (H : bytes -> id) (zdecomp : bytes -> option bytes) (requested label : id) (flags : N) (body : bytes) (c : chunk),
+  proto_answer H zdecomp requested label flags body = Ok c ->
   exists b, data_of zdecomp c = Some b /\ H b = requested.
 Proof. exact proto_response_id_ignored. Qed.
 Print Assumptions C03_proto_response_id_ignored.
+
+(* The protocol client is a leaf like the others: "whatever a leaf returns with a nil error hashes
+   to the requested id" holds for it in front of ANY peer -- [inner] is an arbitrary function of
+   the world, and the adversary may replace the answer in flight by any flags, label and body
+   (compressed flag set or not, zstd frame or plain bytes, intact, damaged or another chunk's). *)
+Theorem C03_protocol_client_verifies :
+  forall (H : bytes -> id) (zcomp : bytes -> bytes) (zdecomp : bytes -> option bytes)
+         (h : nat) (inner : world -> res chunk * world) (i : id) (w : world) (c : chunk) (w' : world),
+  proto_get H zcomp zdecomp h inner i w = (Ok c, w') ->
+  exists b, data_of zdecomp c = Some b /\ H b = i.
+Proof. exact proto_client_verifies. Qed.
+Print Assumptions C03_protocol_client_verifies.
+
+(* The variant that believes the flags -- "compressed" unset and no zstd magic: plain data, through
+   NewChunk -- is refuted: it hands out any non-empty plain body a peer sends that way. *)
+Theorem C03_proto_trust_flags_variant_refuted :
+  forall (H : bytes -> id) (zdecomp : bytes -> option bytes) (requested label : id) (flags : N) (body : bytes),
+  N.land flags DS.Gen.Constants.CaProtocolChunkCompressed = 0%N ->
+  has_prefix zstd_magic body = false -> nonempty body = true ->
+  exists c, proto_answer_trust_flags H zdecomp requested label flags body = Ok c /\ data_of zdecomp c = Some body.
+Proof. exact proto_trust_flags_delivers_anything. Qed.
+Print Assumptions C03_proto_trust_flags_variant_refuted.
 
 (* The variant that builds the chunk with the id found in the answer is refuted: in front of a
    server over a content-trusting store it returns, without error, whatever that store holds in
@@ -323,7 +345,7 @@ Example C03_ex_response_id :
   /\ ex_result (proto_get_with ex_H ex_zc ex_zd (proto_answer_respid ex_H ex_zd) 0 (foreign_get 0 6%N) 6%N w)
      = Ok (Some [1; 2; 4]%N)
   /\ ex_result (get ex_H ex_zc ex_zd (Proto 0 (ex_leaf 0 false)) 6%N
-        (mkWorld (fun _ _ => None) (fun _ => 0) [] (fun _ o => match o with OpNet _ _ => FRespond 7%N [7; 1; 2; 4]%N | _ => NoFault end)))
+        (mkWorld (fun _ _ => None) (fun _ => 0) [] (fun _ o => match o with OpNet _ _ => FRespond 1%N 7%N [7; 1; 2; 4]%N | _ => NoFault end)))
      = Err EInvalid
   /\ ex_result (get ex_H ex_zc ex_zd (Proto 0 (Foreign 0)) 7%N w) = Ok (Some [1; 2; 4]%N).
 Proof. vm_compute. repeat split; reflexivity. Qed.
@@ -335,6 +357,18 @@ Example C03_ex_other_format :
   /\ ex_result (leaf_get_fallback ex_H ex_zd false 0 1 (ex_lo false) 6%N w) = Ok (Some [1; 2; 4]%N)
   /\ ex_result (leaf_get_fallback ex_H ex_zd true 0 1 (ex_lo false) 6%N w) = Err EInvalid
   /\ ex_result (leaf_get_fallback ex_H ex_zd true 0 1 (ex_lo false) 7%N w) = Ok (Some [1; 2; 4]%N).
+Proof. vm_compute. repeat split; reflexivity. Qed.
+(* a peer answering request 6 with the plain body [1;2;4], compressed flag unset: the code
+   refuses it (not a zstd frame), as it refuses the intact plain body [1;2;3]; the flag-trusting
+   variant hands out [1;2;4] *)
+Example C03_ex_plain_body :
+  let peer fg body := mkWorld (fun _ _ => None) (fun _ => 0) []
+                        (fun _ o => match o with OpNet _ _ => FRespond fg 6%N body | _ => NoFault end) in
+  ex_result (get ex_H ex_zc ex_zd (Proto 0 (ex_leaf 0 false)) 6%N (peer 0%N [1; 2; 4]%N)) = Err EInvalid
+  /\ ex_result (get ex_H ex_zc ex_zd (Proto 0 (ex_leaf 0 false)) 6%N (peer 0%N [1; 2; 3]%N)) = Err EInvalid
+  /\ ex_result (get ex_H ex_zc ex_zd (Proto 0 (ex_leaf 0 false)) 6%N (peer 0%N [7; 1; 2; 3]%N)) = Ok (Some [1; 2; 3]%N)
+  /\ match proto_answer_trust_flags ex_H ex_zd 6%N 6%N 0%N [1; 2; 4]%N with
+     | Ok c => data_of ex_zd c = Some [1; 2; 4]%N | Err _ => False end.
 Proof. vm_compute. repeat split; reflexivity. Qed.
 (* the premise of C03_pre898d634_copy_refuted is met by a verifying stack: RemoteSSH in front of
    `desync pull` over a store with a flipped object; index [(6, 3)] describing [1;2;3] *)
